@@ -188,6 +188,22 @@ def main():
     facts.append("Definition guess_map_size_checked : bool := %s." %
                  ("true" if len(re.findall(r"check_anon_map_size\(\s*&?result_mapping", vu)) >= 2 else "false"))
 
+    # Value::to_json, the function Codec.to_json models: leaves are written exactly, maps key by key
+    va = strip_comments(read_nontest("value.rs"))
+    m = need(r"impl\s+Node\s*\{\s*pub\s+fn\s+to_json\(&self\)\s*->\s*serde_json::Value\s*\{(.*?)\n    \}", va, "value::Node::to_json")
+    tj = re.sub(r"\s+", "", m.group(1))
+    facts.append("Definition value_to_json_shape : bool := %s." % ("true" if tj == (
+        "matchself{Node::Real(number)=>serde_json::Value::Number(Number::from_f64(*number).unwrap()),"
+        "Node::Int(number)=>serde_json::Value::Number(Number::from(*number)),"
+        "Node::Bool(val)=>serde_json::Value::Bool(*val),"
+        "Node::Array(elements)=>Self::map_to_json_array(elements),"
+        "Node::AnonMap(mapping)=>Self::map_to_json_obj(mapping),"
+        "Node::Sub(mapping)=>Self::map_to_json_obj(mapping),"
+        "Node::Variant(variant_name,value)=>{letmutout_mapping=serde_json::Map::new();out_mapping.insert(variant_name.to_owned(),value.to_json());serde_json::Value::Object(out_mapping)}"
+        "Node::Enum(variant_name)=>serde_json::Value::String(variant_name.to_owned()),"
+        "Node::Optional(value)=>matchvalue{Some(value)=>value.to_json(),None=>serde_json::Value::Null,},"
+        "Node::Const=>serde_json::Value::Null,}") else "false"))
+
     pr = strip_comments(read_nontest("process.rs"))
     need(r"fn\s+get_child_result", pr, "process::get_child_result")
     facts.append("Definition child_result_must_be_object : bool := %s." %
